@@ -85,6 +85,54 @@ FMT = {
     2: dict(name="i16", equil=0, to_f=lambda s: float(s) / 32768.0, add=_i16_add, dec=lambda z: z, enc=lambda z: z),
 }
 
+# ---- the fourteen formats by their SPECIFICATION (codes 10 + ConvSpec.fmt_code, 22 f32, 23 f64) ----
+# integer format (bits, signed): value z, amplitude amp = z (signed) or z - 2^(bits-1) (offset unsigned);
+#   to_sample::<f64>()      = (amp as f64) / 2^(bits-1)                     (int -> f64 rounds to nearest even)
+#   f64 -> format -> signed = trunc(p * 2^(bits-1)), `as` saturation at the representation type
+#   add_amp                 = amplitude addition, overflow when the sum leaves [-2^(bits-1), 2^(bits-1) - 1]
+INT_FORMATS = {10: ("i8", 8, True, 8), 11: ("i16", 16, True, 16), 12: ("I24", 24, True, 32), 13: ("i32", 32, True, 32),
+               14: ("I48", 48, True, 64), 15: ("i64", 64, True, 64), 16: ("u8", 8, False, 8), 17: ("u16", 16, False, 16),
+               18: ("U24", 24, False, 32), 19: ("u32", 32, False, 32), 20: ("U48", 48, False, 64), 21: ("u64", 64, False, 64)}
+
+
+def _mk_int(code):
+    name, bits, signed, repbits = INT_FORMATS[code]
+    half = 1 << (bits - 1)
+    off = 0 if signed else half
+    rlo, rhi = -(1 << (repbits - 1)), (1 << (repbits - 1)) - 1
+    fhalf = float(half)
+
+    def to_f(z):
+        return float(z - off) / fhalf
+
+    def add(v, p):
+        y = p * fhalf
+        if y != y:
+            q = 0
+        elif y >= float(rhi):
+            q = rhi
+        elif y <= float(rlo):
+            q = rlo
+        else:
+            q = int(y)
+        r = (v - off) + q
+        if not (-half <= r <= half - 1) and not NOPANIC[0]:
+            raise Panic(1)
+        return r + off
+    return dict(name=name, equil=off, to_f=to_f, add=add, dec=lambda z: z, enc=lambda z: z, bits=bits, signed=signed,
+                lo=0 if not signed else -half, hi=(2 * half - 1) if not signed else half - 1, half=half, off=off)
+
+
+for _c in INT_FORMATS:
+    FMT[_c] = _mk_int(_c)
+FMT[22] = dict(FMT[1], name="f32g")
+FMT[23] = dict(FMT[0], name="f64g")
+FMT[2].update(bits=16, signed=True, lo=-32768, hi=32767, half=32768, off=0)
+
+
+def is_int(fmt):
+    return fmt == 2 or 10 <= fmt <= 21
+
 
 class Oracle:
     """sin or cos: records the arguments it is asked (bit patterns, first-use order); answers from a table
